@@ -125,6 +125,30 @@ def run(ctx):
                     owner = m["path"]
                     ctx.violate("io.exact-only", f"{gpath(crate, owner)}|{trait}::{meth}",
                                 f"{owner} calls {trait}::{meth} on the transport ({ga.split(', ')[0]}): its result depends on how the bytes are chunked; only read_exact-class calls are chunk-insensitive")
+    # D4: the transport is not handed to foreign code.  A reader given to a std / tokio / async-std adaptor (BufReader, Take, Chain, a
+    # decoder) is read by that adaptor with plain `read` calls: it may take more bytes from the stream than the message has (read-ahead)
+    # or stop at a chunk boundary, so the result depends on how the bytes arrive.  Allowed: the flate2 encoder around the body writer and
+    # wow_srp's header writers (every byte they are given goes out through write_all), and the I/O extension traits checked above.
+    n_own = 0
+    for crate in ("wow_login_messages", "wow_world_messages"):
+        F = g.f(crate)
+        for m in F.all("mir"):
+            for (span, callee, resolved, ga, mac) in m["calls"]:
+                tgt = resolved if resolved != "-" else callee
+                if tgt.startswith(("crate::", "<crate::")) or callee.startswith(("crate::", "<crate::")) or TRANSPORT_TRAITS.match(callee):
+                    continue
+                first = (ga.split(", ")[0] if ga else "").replace("&mut ", "").replace("&", "").strip()
+                is_r = first == "R" or (first.startswith("impl ") and "Read" in first)
+                is_w = first == "W" or (first.startswith("impl ") and "Write" in first)
+                if not (is_r or is_w):
+                    continue
+                n_own += 1
+                if is_w and (tgt.startswith("flate2::zlib::write::ZlibEncoder::<W>::") or (tgt.startswith("wow_srp::") and "::write_encrypted_" in tgt)):
+                    continue
+                ctx.violate("io.transport-owner", f"{gpath(crate, m['path'])}|{tgt}",
+                            f"{m['path']} hands the transport ({first}) to {tgt}: foreign code reads or writes it with calls that are not read_exact-class (a buffering "
+                            f"reader takes bytes beyond the message from the stream; what the next read sees then depends on how the bytes were chunked)")
+    ctx.rule("io.transport-owner", n_own, floor=10, note="calls of foreign functions instantiated with the transport type: only the flate2 encoder around a body writer and wow_srp's header writers")
     ctx.rule("twin.flavours", n_groups + n_prim, floor=TRIPLE_FLOOR, note=f"{n_groups} sibling groups ({n_fns} async copies compared; {n_sem} of them not tree-equal and decided by interpretation on {n_sem_runs} shared abstract inputs) + {n_prim} primitive readers")
     ctx.rule("io.exact-only", n_io, floor=IO_FLOOR, note="trait-method calls on transport-typed receivers (MIR, resolved)")
     ctx.assume("std/tokio/async-std read_exact loops until the buffer is full or fails with UnexpectedEof regardless of chunking and Pending (documented contract)")
